@@ -98,8 +98,42 @@ func genScenario(t *rapid.T) *modsim.Scenario {
 	for i, m := range sc.Modules {
 		all[i] = m.Name
 	}
+	if rapid.IntRange(0, 5).Draw(t, "retrycase") == 0 {
+		// a start routine that launches part of its work itself and then fails; the module is started again by the next
+		// management pass (the work of the failed attempt must be cancelled by then) and finally stopped
+		x := &sc.Modules[len(sc.Modules)-1]
+		x.Start.Fault = rapid.SampledFrom([]string{"error", "panic"}).Draw(t, "retryfault")
+		if x.Start.Fault == "panic" {
+			x.Start.Panic = "string"
+		}
+		x.Start.FaultTimes = 1
+		for _, w := range x.Work {
+			if (w.Kind == "startworker" || w.Kind == "service" || w.Kind == "runworker" || w.Kind == "start_mt_med") && w.Mode == "waitctx" {
+				x.Start.Launch = append(x.Start.Launch, w.ID)
+			}
+		}
+		if len(x.Start.Launch) == 0 {
+			id++
+			x.Work = append(x.Work, modsim.Work{ID: id, Kind: "startworker", Mode: "waitctx", DelayUS: 300})
+			x.Start.Launch = []int{id}
+		}
+		sc.Mgmt = true
+		for _, m := range sc.Modules[:len(sc.Modules)-1] {
+			if rapid.Bool().Draw(t, "enabled") {
+				sc.Enabled = append(sc.Enabled, m.Name)
+			}
+		}
+		sc.Steps = []modsim.Step{{Op: "start"}, {Op: "launch", Mods: all}, {Op: "enable", Mods: []string{x.Name}}, {Op: "manage"}, {Op: "manage"},
+			{Op: "launch", Mods: []string{x.Name}}, {Op: "shutdown"}, {Op: "poststop", Mods: all}}
+		return sc
+	}
 	sc.Mgmt = rapid.Bool().Draw(t, "mgmt")
 	sc.Steps = append(sc.Steps, modsim.Step{Op: "start"})
+	if rapid.IntRange(0, 14).Draw(t, "sigstorm") == 0 {
+		// signalled microtasks whose done function is called by four goroutines at once, many times: afterwards the
+		// module counters must still be exact, or a later stop is reported too early / waits out the timeout
+		sc.Steps = append(sc.Steps, modsim.Step{Op: "sigstorm", Mods: all[len(all)-1:], US: 6000})
+	}
 	if sc.Mgmt {
 		sc.Enabled = modsim.Subset(t, sc.Modules, "enabled")
 		if len(sc.Enabled) == 0 {
@@ -152,7 +186,12 @@ func runAndJudge(t interface {
 func TestPropStopWaitsForWork(t *testing.T) {
 	rapid.Check(t, func(t *rapid.T) {
 		sc := genScenario(t)
+		t0 := time.Now()
 		res := runAndJudge(t, sc)
+		if d := time.Since(t0); d > 5*time.Second {
+			stats.Class("slow_case_over_5s")
+			stats.Sample("slow_case", map[string]any{"seconds": d.Seconds(), "scenario": sc, "events": modsim.RenderEvents(res.Events, 80)})
+		}
 		cls, running := modsim.C05Stats(sc, res)
 		cls = append(cls, fmt.Sprintf("modules_%d", len(sc.Modules)), fmt.Sprintf("delays_%d", len(sc.Delays)))
 		stats.Case(sc.Fingerprint(), running > 0, cls...)
